@@ -261,8 +261,47 @@ def sig_of(src):
     return 'other'
 
 
+SPECIAL = ['(x:=a)', '(yield)', '(yield a)', '(yield from a)', '*a,b', 'lambda:a', 'a if b else c', '(a,b)', '(a for a in b)', 'await a', '[*a]', '{**a}', '-1', 'not a', 'a<b<c', "f'{a}'", '1 .real', '...', '()', "'s' 't'"]
+
+
+def number_sources(r, tier):
+    out = []
+    n = 400 if tier == 'quick' else 6000
+    for _ in range(n):
+        k = r.random()
+        if k < 0.35:
+            m = r.randint(1, 10 ** r.randint(1, 17))
+            e = r.randint(-30, 30)
+            v = float('%de%d' % (m, e))
+        elif k < 0.55:
+            v = float(r.randint(1, 2 ** 63)) * r.choice([1.0, 2.0, 0.5, 1024.0, 1e-3])
+        elif k < 0.7:
+            v = r.random() * 10 ** r.randint(-20, 20)
+        elif k < 0.8:
+            v = float(2 ** r.randint(40, 70) + r.randint(-3, 3))
+        elif k < 0.9:
+            v = complex(0, r.random() * 10 ** r.randint(-5, 20))
+        else:
+            v = r.randint(0, 2 ** r.randint(1, 200))
+        out.append(repr(v))
+    return out
+
+
 def oracle(res, r, tier):
     n = 0
+    nums = number_sources(r, tier)
+    for k in range(0, len(nums), 25):
+        n += strict_roundtrip(res, '\n'.join('v%d=%s' % (i, x) for i, x in enumerate(nums[k:k + 25])) + '\n', 'unparse' if (k // 25) % 2 else 'minify-all-off', 'numbers')
+    for i, s in enumerate(STMTS):
+        for e in SPECIAL:
+            for src in (s.format('(%s)' % e if not e.startswith('(') else e, 'b'), s.format('b', '(%s)' % e if not e.startswith('(') else e)):
+                for wrap in ('%s', 'def w():\n' + ' %s', 'async def w():\n' + ' %s'):
+                    body = src if wrap == '%s' else '\n'.join(' ' + l for l in src.split('\n'))
+                    full = (body if wrap == '%s' else wrap.split('\n')[0] + '\n' + body) + '\n'
+                    got = strict_roundtrip(res, full, 'unparse', 'statement-special')
+                    n += got
+                    if got:
+                        break
     for e in variants(r, tier):
         for wrap in ('x=%s', 'async def f():\n return %s'):
             src = (wrap % e) + '\n'
